@@ -1295,7 +1295,7 @@ func genSoup(rng *rand.Rand) Case {
 }
 
 // makeBlocked turns a generated case into a blocked case: up to three of the XLogData events the
-// client will forward get 1-3 blocked ticks with 0-2 progress values each (positions of COMMITs
+// client will forward get 1-3 blocked ticks with 0-2 progress values each (one in five: 4-9 ticks without any new progress value) (positions of COMMITs
 // sent earlier in the script - what a ledger would report -, or arbitrary/stale ones); one in ten
 // closes the progress channel with its last batch.
 func makeBlocked(rng *rand.Rand, c *Case) {
@@ -1308,9 +1308,13 @@ func makeBlocked(rng *rand.Rand, c *Case) {
 		reaches := f.reaches(*e)
 		if reaches && budget > 0 && rng.Intn(4) == 0 {
 			budget--
-			for k := 1 + rng.Intn(3); k > 0; k-- {
+			nticks := 1 + rng.Intn(3)
+			if rng.Intn(5) == 0 {
+				nticks = 4 + rng.Intn(6) // a long blockage: the status updates must not thin out
+			}
+			for k := nticks; k > 0; k-- {
 				batch := []uint64{}
-				for n := rng.Intn(3); n > 0; n-- {
+				for n := rng.Intn(3); n > 0 && nticks < 4; n-- {
 					if len(commits) > 0 && rng.Intn(4) != 0 {
 						batch = append(batch, commits[rng.Intn(len(commits))])
 					} else {
